@@ -111,6 +111,23 @@ EncMpBody(b) ==
     [] b.T = "PortStatsRequest"  -> b.PortNo \o Zeros(4)
     [] b.T = "QueueStatsRequest" -> b.PortNo \o b.QueueId
     [] b.T = "raw" -> b.Data
+AllHave(r, fs) == \A f \in fs : Has(r, f)
+EncStats(b) ==
+  CASE b.T = "DescStats" -> b.MfrDesc \o b.HWDesc \o b.SWDesc \o b.SerialNum \o b.DPDesc
+    [] b.T = "FlowStats" -> LET rest == b.TableId \o <<0>> \o b.DurationSec \o b.DurationNSec \o b.Priority \o b.IdleTimeout \o b.HardTimeout
+                                        \o b.Flags \o Zeros(4) \o b.Cookie \o b.PacketCount \o b.ByteCount \o EncMatch(b.Match) \o EncInstrs(b.Instructions)
+                            IN BE16(2 + Len(rest)) \o rest
+    [] b.T = "AggregateStats" -> b.PacketCount \o b.ByteCount \o b.FlowCount \o Zeros(4)
+    \* OpenFlow 1.3 layouts; a value that lacks the 1.3 fields (or has them at another width) does not encode
+    [] b.T = "TableStats" -> IF AllHave(b, {"TableId", "ActiveCount", "LookupCount", "MatchedCount"}) /\ ~Has(b, "Wildcards")
+                             THEN b.TableId \o Zeros(3) \o b.ActiveCount \o b.LookupCount \o b.MatchedCount ELSE <<>>
+    [] b.T = "PortStats" -> IF AllHave(b, {"PortNo", "DurationSec", "DurationNSec"}) /\ Len(b.PortNo) = 4
+                            THEN b.PortNo \o Zeros(4) \o b.RxPackets \o b.TxPackets \o b.RxBytes \o b.TxBytes \o b.RxDropped \o b.TxDropped \o b.RxErrors
+                                 \o b.TxErrors \o b.RxFrameErr \o b.RxOverErr \o b.RxCRCErr \o b.Collisions \o b.DurationSec \o b.DurationNSec ELSE <<>>
+    [] b.T = "QueueStats" -> IF AllHave(b, {"PortNo", "DurationSec", "DurationNSec"}) /\ Len(b.PortNo) = 4
+                             THEN b.PortNo \o b.QueueId \o b.TxBytes \o b.TxPackets \o b.TxErrors \o b.DurationSec \o b.DurationNSec ELSE <<>>
+    [] b.T = "PhyPort" -> EncPort(b)
+    [] OTHER -> <<>>
 EncMsg(m) ==
   CASE m.T = "Header"       -> Msg(m.Type[1], m.Xid, <<>>)
     [] m.T = "Hello"        -> Msg(0, m.Header.Xid, EncList(EncHelloElem, m.Elements))
@@ -125,6 +142,7 @@ EncMsg(m) ==
                                Msg(13, m.Header.Xid, m.BufferId \o m.InPort \o BE16(Len(acts)) \o Zeros(6) \o acts \o EncPayload(m.Data))
     [] m.T = "PortMod"      -> Msg(16, m.Header.Xid, m.PortNo \o Zeros(4) \o m.HWAddr \o Zeros(2) \o m.Config \o m.Mask \o m.Advertise \o Zeros(4))
     [] m.T = "MultipartRequest" -> Msg(18, m.Header.Xid, m.Type \o m.Flags \o Zeros(4) \o EncMpBody(m.Body))
+    [] m.T = "MultipartReply" -> Msg(19, m.Header.Xid, m.Type \o m.Flags \o Zeros(4) \o EncList(EncStats, m.Body))
     [] m.T = "VendorHeader" -> Msg(4, m.Header.Xid, m.Vendor \o m.ExperimenterType \o EncVendorData(m.VendorData))
     [] m.T = "PortStatus"   -> Msg(12, m.Header.Xid, m.Reason \o Zeros(7) \o EncPort(m.Desc))
     [] m.T = "FlowRemoved"  -> Msg(11, m.Header.Xid, m.Cookie \o m.Priority \o m.Reason \o m.TableId \o m.DurationSec \o m.DurationNSec
@@ -135,10 +153,10 @@ EncMsg(m) ==
 TypeCode(m) ==
   CASE m.T = "Header" -> m.Type[1] [] m.T = "Hello" -> 0 [] m.T \in {"ErrorMsg", "VendorError"} -> 1 [] m.T = "SwitchConfig" -> m.Header.Type[1]
     [] m.T = "FlowMod" -> 14 [] m.T = "GroupMod" -> 15 [] m.T = "PacketOut" -> 13 [] m.T = "PortMod" -> 16
-    [] m.T = "MultipartRequest" -> 18 [] m.T = "VendorHeader" -> 4 [] m.T = "PortStatus" -> 12 [] m.T = "FlowRemoved" -> 11
+    [] m.T = "MultipartRequest" -> 18 [] m.T = "MultipartReply" -> 19 [] m.T = "VendorHeader" -> 4 [] m.T = "PortStatus" -> 12 [] m.T = "FlowRemoved" -> 11
     [] m.T = "PacketIn" -> 10 [] m.T = "SwitchFeatures" -> 6
 MsgKinds == {"Header", "Hello", "ErrorMsg", "VendorError", "SwitchConfig", "FlowMod", "GroupMod", "PacketOut", "PortMod",
-             "MultipartRequest", "VendorHeader", "PortStatus", "FlowRemoved", "PacketIn", "SwitchFeatures"}
+             "MultipartRequest", "MultipartReply", "VendorHeader", "PortStatus", "FlowRemoved", "PacketIn", "SwitchFeatures"}
 ActionKinds == {"ActionOutput", "ActionSetqueue", "ActionGroup", "ActionDecNwTtl", "ActionPush", "ActionPopVlan",
                 "ActionPopMpls", "ActionMplsTtl", "ActionNwTtl", "ActionHeader", "ActionSetField", "NXActionResubmit",
                 "NXActionResubmitTable", "NXActionRegMove", "NXActionRegLoad", "NXActionNote", "NXActionOutputReg", "NXActionLearn",
@@ -153,6 +171,7 @@ Enc(t) == CASE t.T \in MsgKinds -> EncMsg(t) [] t.T \in ActionKinds -> EncAction
             [] t.T = "PhyPort" -> EncPort(t)
             [] t.T \in {"ControllerID", "TLVTableMod", "TLVTableReply", "BundleControl", "BundleAdd"} -> EncVendorData(t)
             [] t.T \in {"FlowStatsRequest", "AggregateStatsRequest", "PortStatsRequest", "QueueStatsRequest"} -> EncMpBody(t)
+            [] t.T \in {"DescStats", "FlowStats", "AggregateStats", "TableStats", "PortStats", "QueueStats"} -> EncStats(t)
             [] t.T \in PktKinds -> EncPkt(t)
             [] t.T = "raw" -> t.Data
 
